@@ -13,6 +13,7 @@ EDGE = "$09AZ_az"
 ALL = "$0123456789ABCDEFGHIJKLMNOPQRSTUVWXYZ_abcdefghijklmnopqrstuvwxyz"
 IDENT = re.compile(r"[A-Za-z_$][A-Za-z0-9_$]*\Z")
 SAFE = re.compile(r"(?:_?[zZ])")
+RESERVED = re.compile(r"zE\d+_\Z|zEnumHolder_\Z")      # names the generator derives itself
 
 
 def ident_set(rng, n, maxlen=12, dollar=True):
@@ -40,7 +41,7 @@ def ident_set(rng, n, maxlen=12, dollar=True):
         else:
             s = rng.choice(roots) + "".join(rng.choice(alpha_edge if rng.random() < 0.7 else alpha_all)
                                             for _ in range(rng.randint(0, 3)))
-        if len(s) > maxlen or not IDENT.match(s) or not SAFE.match(s) or s in names:
+        if len(s) > maxlen or not IDENT.match(s) or not SAFE.match(s) or RESERVED.match(s) or s in names:
             continue
         names.add(s)
         pool.append(s)
